@@ -455,7 +455,7 @@ def _specs() -> list[Spec]:
         Spec("Min", M.Min, [{}], g_values, cat={0: 0}, kind="minmax", model=None, family="agg"),
         Spec("Cat", M.Cat, [{}, {"dim": 1}], g_cat, kind="ordered", cat=None, family="agg"),
         Spec("AUC", M.AUC, [{}, {"n_tasks": 2}, {"reorder": False}], g_auc, cat={0: -1, 1: -1}, functional=lambda cfg, b: F.auc(*b.args, reorder=cfg.get("reorder", True)), family="agg"),
-        Spec("Covariance", M.Covariance, [{}], g_cov, cat={0: 0}, family="agg", min_samples=2, sizes=(1, 2, 3, 5)),
+        Spec("Covariance", M.Covariance, [{}], g_cov, cat={0: 0}, family="agg", min_samples=2, sizes=(1, 2, 3, 5), count_states=("n",)),
         Spec("Throughput", M.Throughput, [{}], g_throughput, kind="throughput", cat=None, model=None, family="agg"),
     ]
     # --- regression
@@ -474,27 +474,27 @@ def _specs() -> list[Spec]:
         Spec("RetrievalRecall", M.RetrievalRecall, [{"k": 2}, {"k": 3, "limit_k_to_size": True}, {"k": 2, "num_queries": 2, "avg": "macro"}, {"k": None}],
              g_retrieval, kind="retrieval", cat=c012, family="rank", sizes=(1, 2, 3, 5), functional=_f_retrieval(F.retrieval_recall)),
         Spec("ClickThroughRate", M.ClickThroughRate, [{}, {"num_tasks": 2}], g_ctr, cat={0: -1, 1: -1}, functional=_f(F.click_through_rate, "num_tasks"), model=None, family="rank", count_states=("click_total", "weight_total"), scalar_expand={1: 0}),
-        Spec("WeightedCalibration", M.WeightedCalibration, [{}, {"num_tasks": 2}], g_wc, cat={0: -1, 1: -1, 2: -1}, functional=_f(F.weighted_calibration, "num_tasks"), model=None, family="rank", scalar_expand={2: 0}),
+        Spec("WeightedCalibration", M.WeightedCalibration, [{}, {"num_tasks": 2}], g_wc, cat={0: -1, 1: -1, 2: -1}, functional=_f(F.weighted_calibration, "num_tasks"), model=None, family="rank", scalar_expand={2: 0}, count_states=("weighted_target_sum",)),
     ]
     # --- text / misc
     S += [
         Spec("WordErrorRate", M.WordErrorRate, [{}], g_text, cat={}, functional=_f(F.word_error_rate), family="text", count_states=("errors", "total")),
-        Spec("WordInformationLost", M.WordInformationLost, [{}], g_text, cat={}, functional=_f(F.word_information_lost), family="text"),
-        Spec("WordInformationPreserved", M.WordInformationPreserved, [{}], g_text, cat={}, functional=_f(F.word_information_preserved), family="text"),
-        Spec("BLEUScore", M.BLEUScore, [{"n_gram": 2}, {"n_gram": 1}, {"n_gram": 3}], g_bleu, cat={}, functional=_f(F.bleu_score, "n_gram"), family="text", tol=1e-4),
-        Spec("Perplexity", M.Perplexity, [{}, {"ignore_index": 1}, {"ignore_index": -100}], g_perplexity, cat=c01, functional=_f(F.perplexity, "ignore_index"), family="text", tol=1e-4),
-        Spec("BinaryNormalizedEntropy", M.BinaryNormalizedEntropy, [{}, {"num_tasks": 2}, {"from_logits": True}], g_ne, cat=tasks, functional=_f(F.binary_normalized_entropy, "num_tasks", "from_logits"), family="ne", tol=1e-4),
-        Spec("PeakSignalNoiseRatio", M.PeakSignalNoiseRatio, [{}, {"data_range": 2.0}], g_psnr, cat=c01, functional=_f(F.peak_signal_noise_ratio, "data_range"), family="image", tol=1e-4),
+        Spec("WordInformationLost", M.WordInformationLost, [{}], g_text, cat={}, functional=_f(F.word_information_lost), family="text", count_states=("correct_total", "target_total", "preds_total")),
+        Spec("WordInformationPreserved", M.WordInformationPreserved, [{}], g_text, cat={}, functional=_f(F.word_information_preserved), family="text", count_states=("correct_total", "input_total", "target_total")),
+        Spec("BLEUScore", M.BLEUScore, [{"n_gram": 2}, {"n_gram": 1}, {"n_gram": 3}], g_bleu, cat={}, functional=_f(F.bleu_score, "n_gram"), family="text", tol=1e-4, count_states=("input_len", "target_len", "matches_by_order", "possible_matches_by_order")),
+        Spec("Perplexity", M.Perplexity, [{}, {"ignore_index": 1}, {"ignore_index": -100}], g_perplexity, cat=c01, functional=_f(F.perplexity, "ignore_index"), family="text", tol=1e-4, count_states=("num_total",)),
+        Spec("BinaryNormalizedEntropy", M.BinaryNormalizedEntropy, [{}, {"num_tasks": 2}, {"from_logits": True}], g_ne, cat=tasks, functional=_f(F.binary_normalized_entropy, "num_tasks", "from_logits"), family="ne", tol=1e-4, count_states=("num_examples", "num_positive")),
+        Spec("PeakSignalNoiseRatio", M.PeakSignalNoiseRatio, [{}, {"data_range": 2.0}], g_psnr, cat=c01, functional=_f(F.peak_signal_noise_ratio, "data_range"), family="image", tol=1e-4, count_states=("num_observations",)),
         Spec("Wasserstein1D", Wasserstein1D, [{}], g_wasserstein, cat={0: 0, 1: 0, 2: 0, 3: 0}, family="stat", tol=1e-4),
-        Spec("FrechetAudioDistance", _fad_ctor, [{}], g_fad, cat=c01, family="audio", tol=2e-3, min_samples=2, sizes=(2, 3)),
+        Spec("FrechetAudioDistance", _fad_ctor, [{}], g_fad, cat=c01, family="audio", tol=2e-3, min_samples=2, sizes=(2, 3), count_states=("pred_n", "target_n")),
     ]
     # --- windowed
     S += [
-        Spec("WindowedClickThroughRate", M.WindowedClickThroughRate, [{"max_num_updates": 3}, {"max_num_updates": 2, "num_tasks": 2}, {"max_num_updates": 3, "enable_lifetime": False}], g_ctr, kind="window", family="window", model=None, count_states=("total_updates", "weight_total")),
-        Spec("WindowedWeightedCalibration", M.WindowedWeightedCalibration, [{"max_num_updates": 3}, {"max_num_updates": 2, "num_tasks": 2}, {"max_num_updates": 3, "enable_lifetime": False}], g_wc, kind="window", family="window", model=None, count_states=("total_updates",)),
-        Spec("WindowedBinaryNormalizedEntropy", M.WindowedBinaryNormalizedEntropy, [{"max_num_updates": 3}, {"max_num_updates": 2, "num_tasks": 2}, {"max_num_updates": 3, "enable_lifetime": False}], g_ne, kind="window", family="window", tol=1e-4),
+        Spec("WindowedClickThroughRate", M.WindowedClickThroughRate, [{"max_num_updates": 3}, {"max_num_updates": 2, "num_tasks": 2}, {"max_num_updates": 3, "enable_lifetime": False}], g_ctr, kind="window", family="window", model=None, count_states=("total_updates", "click_total", "weight_total")),
+        Spec("WindowedWeightedCalibration", M.WindowedWeightedCalibration, [{"max_num_updates": 3}, {"max_num_updates": 2, "num_tasks": 2}, {"max_num_updates": 3, "enable_lifetime": False}], g_wc, kind="window", family="window", model=None, count_states=("total_updates", "weighted_target_sum")),
+        Spec("WindowedBinaryNormalizedEntropy", M.WindowedBinaryNormalizedEntropy, [{"max_num_updates": 3}, {"max_num_updates": 2, "num_tasks": 2}, {"max_num_updates": 3, "enable_lifetime": False}], g_ne, kind="window", family="window", tol=1e-4, count_states=("total_updates", "num_examples", "num_positive")),
         Spec("WindowedMeanSquaredError", M.WindowedMeanSquaredError, [{"max_num_updates": 3}, {"max_num_updates": 2, "enable_lifetime": False}, {"max_num_updates": 2, "num_tasks": 2, "_d": 2}], g_mse, kind="window", family="window", model=None, count_states=("total_updates", "sum_weight")),
-        Spec("WindowedBinaryAUROC", M.WindowedBinaryAUROC, [{"max_num_samples": 5}, {"max_num_samples": 4, "num_tasks": 2}], g_binary_tasks_w, kind="window", family="window", sizes=(1, 2, 3, 4, 5, 7)),
+        Spec("WindowedBinaryAUROC", M.WindowedBinaryAUROC, [{"max_num_samples": 5}, {"max_num_samples": 4, "num_tasks": 2}], g_binary_tasks_w, kind="window", family="window", sizes=(1, 2, 3, 4, 5, 7), count_states=("total_samples",)),
     ]
     return S
 
